@@ -71,9 +71,14 @@ def tasks_for(prop, REG):
     return out
 
 
+XCHECK_HARNESSES = {"hv_perform_action", "net_perform_action", "net_subnet_scan", "net_reset", "net_update_reachable",
+                    "net_hrp", "net_tp", "net_goal", "state_get_observation", "hv_observe"}
+
+
 def _run_task(args):
     """worker: explore + discharge one (contract, variant, mode)"""
     q, variant, concrete, timeout_ms, tree, use_cvc5, skip = args
+    xlimit = 2 if timeout_ms <= 20000 else 12
     os.environ["PYVC_REPO"] = tree
     t0 = time.time()
     out = {"qualname": q, "variant": variant, "concrete": concrete, "results": [], "error": None, "limit": None}
@@ -124,6 +129,16 @@ def _run_task(args):
             if concrete is not None and o.kind == "post" and tuple(o.trace) not in seen_cover:
                 seen_cover.add(tuple(o.trace))
                 rc = vc.solve_one(o.hyps, z3.BoolVal(False), timeout_ms, use_cvc5=False)
+                # engine cross-check: a model of this path's hypotheses is an ordinary (non-failing) input; the
+                # engine's predicted outputs for it must equal what the real code computes (checked by the parent)
+                if rc["status"] == "refuted" and rc.get("model") is not None and o.info.get("cex") is not None \
+                        and len(out.setdefault("xcheck", [])) < xlimit:
+                    try:
+                        x = o.info["cex"](rc["model"])
+                        if x and x.get("harness") in XCHECK_HARNESSES and x.get("predicted"):
+                            out["xcheck"].append(x)
+                    except Exception:
+                        pass
                 out["results"].append({"name": f"{q}:cover:normal-exit", "kind": "cover", "tags": [],
                                        "status": "feasible" if rc["status"] == "refuted" else
                                        ("infeasible" if rc["status"] == "discharged" else "unknown"),
@@ -349,6 +364,31 @@ def check_property(prop, tier="quick", tree="/repo", record=False, jobs=None, le
     for name, b in bagg.items():
         if b.get("bounded_only") and b["unknown"] and name not in bref:
             D.undecided.append((name, "bounded instance undecided"))
+    # ---- engine cross-check on ordinary inputs (models of path hypotheses): prediction must equal the real code
+    xs = [x for r in resB for x in r.get("xcheck", [])]
+    xres = {"inputs": len(xs), "agree": 0, "disagree": 0}
+    if xs:
+        os.makedirs(replay_dir, exist_ok=True)
+        bpath = os.path.join(replay_dir, f"{prop}-xcheck-batch.json")
+        with open(bpath, "w") as f:
+            json.dump(xs, f)
+        env = dict(os.environ, NASIM_TREE=tree, PYTHONPATH=tree)
+        p_ = subprocess.run([sys.executable, os.path.join(VERIF, "replay", "dyn_replay.py"), "--batch", bpath], env=env,
+                            stdout=subprocess.PIPE, stderr=subprocess.STDOUT, text=True, timeout=1800)
+        try:
+            outs = json.loads(p_.stdout[p_.stdout.index("["):])
+        except Exception:
+            outs = []
+            D.failures.append("engine cross-check batch crashed: " + p_.stdout[-300:])
+        for x, o_ in zip(xs, outs):
+            if o_.get("reproduced"):
+                xres["agree"] += 1
+            else:
+                xres["disagree"] += 1
+                if not D.violations:
+                    D.failures.append(f"engine cross-check: prediction differs from the real code for harness "
+                                      f"{x.get('harness')}: {o_.get('mismatches', [])[:3]}")
+    D.xcheck = xres
     # ---- vanished obligations
     if exp and not record and not D.violations:
         for name, st in exp.items():
@@ -477,6 +517,7 @@ def build_evidence(prop, tier, level, agg, bagg, resA, resB, D, bounded, wall, n
             "cover_checks": {f"{k[0]}[{k[1]}]": v for k, v in covers.items()},
             "call_graph_used": sorted(callees),
             "known_findings_printed": [kf["what"] for kf, _ in D.known],
+            "engine_crosscheck": getattr(D, "xcheck", {}),
             "undecided": [n for n, _ in D.undecided],
             "tree": tree,
             "design_ref": design_ref,
